@@ -87,7 +87,7 @@ def resOf : Except String Unit → String
   | .error e => oExc e
 
 /-- `response.<set property> = value` -/
-def assignRaw (h : HList) (name : Str) (fields : List String) (dictDump : ODict → Str) : Option (HList × String) :=
+def assignRaw (h : HList) (name : Str) (fields : List String) (dictDump : ODict → Except String Str) : Option (HList × String) :=
   match fields with
   | ["none"] => some (delKey h name, "~")
   | ["str", s] => do
@@ -98,12 +98,12 @@ def assignRaw (h : HList) (name : Str) (fields : List String) (dictDump : ODict 
   | ["list", l] => do
     let l ← pAtoms l
     if l.isEmpty then pure (delKey h name, "~") else
-    let r := Hdr.set h name (dumpList l)
+    let r := Hdr.set h name (Http.dumpHeaderList l)
     pure (r.1, resOf r.2)
   | ["dict", d] => do
     let d ← pOKV d
     if d.isEmpty then pure (delKey h name, "~") else
-    let r := Hdr.set h name (dictDump d)
+    let r := writeText h name (dictDump d)
     pure (r.1, resOf r.2)
   | _ => none
 
@@ -115,7 +115,7 @@ def famSet (name : Str) : Fam HS.St where
     let r := HS.step v op
     let h' := if r.notified then SetView.write h name r.st else h
     pure (h', r.st, resOf r.res)
-  assign h fields := (assignRaw h name fields dumpDict).map fun (h', r) => (h', none, r)
+  assign h fields := (assignRaw h name fields Http.dumpHeaderDict).map fun (h', r) => (h', none, r)
   delete _ := none
 
 /-! ### Cache-Control -/
@@ -140,7 +140,7 @@ def oGot : CC.Got → String
   | .str s => oS s
 
 def showCC (d : ODict) : String :=
-  "items=" ++ oODict d ++ "/hdr=" ++ oS (CC.dump d) ++ "/" ++
+  "items=" ++ oODict d ++ "/hdr=" ++ oExcept oS (CC.dump d) ++ "/" ++
     ",".intercalate (Gen.Views.cacheControlProps.map fun (attr, key, empty, ty) =>
       attr ++ "=" ++ oGot (CC.getValue d key.toList (empty == "true")
         (if ty == "bool" then .bool else if ty == "int" then .int else .str)))
@@ -169,6 +169,10 @@ def oDRes {β : Type} (f : β → String) : Except String (Option β) → String
   | .ok (some x) => f x
   | .error e => oExc e
 
+/-- combine the mutator's result with what `on_update` did (its exception wins) -/
+def afterWrite (notified : Bool) (h : HList) (w : HList × Except String Unit) (res : String) : HList × String :=
+  if notified then (w.1, match w.2 with | .ok _ => res | .error e => oExc e) else (h, res)
+
 def famCC : Fam ODict where
   load h := (CC.load h, h)
   show_ := showCC
@@ -178,15 +182,18 @@ def famCC : Fam ODict where
       let (key, _, ty) ← ccRow attr
       let val ← pCCVal val
       let r := CC.step v (.attr key ty val)
-      pure (if r.notified then CC.write h r.st else h, r.st, oDRes oOptS r.res)
+      let a := afterWrite r.notified h (CC.write h r.st) (oDRes oOptS r.res)
+      pure (a.1, r.st, a.2)
     | ["delattr", attr] => do
       let (key, _, _) ← ccRow attr
       let r := CC.step v (.delattr key)
-      pure (if r.notified then CC.write h r.st else h, r.st, oDRes oOptS r.res)
+      let a := afterWrite r.notified h (CC.write h r.st) (oDRes oOptS r.res)
+      pure (a.1, r.st, a.2)
     | _ => do
       let op ← pDOp pOptAtom fields
       let r := CC.step v (.dict op)
-      pure (if r.notified then CC.write h r.st else h, r.st, oDRes oOptS r.res)
+      let a := afterWrite r.notified h (CC.write h r.st) (oDRes oOptS r.res)
+      pure (a.1, r.st, a.2)
   assign _ _ := none
   delete _ := none
 
@@ -280,7 +287,7 @@ def famCR : Fam CR.St where
 /-! ### WWW-Authenticate -/
 
 def showAuth (c : Auth.St) : String :=
-  "type=" ++ oS c.type ++ "/token=" ++ oOptS c.token ++ "/params=" ++ oODict c.params ++ "/hdr=" ++ oS (Auth.toHeader c)
+  "type=" ++ oS c.type ++ "/token=" ++ oOptS c.token ++ "/params=" ++ oODict c.params ++ "/hdr=" ++ oExcept oS (Auth.toHeader c)
 
 def pAuthOp (fields : List String) : Option Auth.Op :=
   match fields with
@@ -303,20 +310,26 @@ def famAuth : Fam Auth.St where
   vop h v fields := do
     let op ← pAuthOp fields
     let r := Auth.step v op
-    pure (if r.notified then Auth.write h r.st else h, r.st, oDRes oOptS r.res)
+    let a := afterWrite r.notified h (Auth.write h r.st) (oDRes oOptS r.res)
+    pure (a.1, r.st, a.2)
   assign h fields :=
     let name := "WWW-Authenticate".toList
     match fields with
     | ["none"] => some (if Hdr.contains h name then delKey h name else h, none, "~")
     | ["view", t, tok, ps] => do
       let c ← pAuthView t tok ps
-      pure (Auth.write h c, some c, "~")
+      let w := Auth.write h c
+      pure (w.1, some c, resOf w.2)
     | ["list", t1, tok1, ps1, t2, tok2, ps2] => do
       let c1 ← pAuthView t1 tok1 ps1
       let c2 ← pAuthView t2 tok2 ps2
-      let h1 := Auth.write h c1
-      let r := Hdr.add h1 name (Auth.toHeader c2)
-      pure (r.1, none, "~")
+      let w1 := Auth.write h c1
+      match w1.2, Auth.toHeader c2 with
+      | .ok _, .ok t2 =>
+        let r := Hdr.add w1.1 name t2
+        pure (r.1, none, resOf r.2)
+      | .error e, _ => pure (w1.1, none, oExc e)
+      | _, .error e => pure (w1.1, none, oExc e)
     | _ => none
   delete h :=
     let name := "WWW-Authenticate".toList
@@ -364,7 +377,7 @@ def scalarGet (h : HList) (attr : String) : Option SVal := do
     if lf == "none" || lf == "parse_date" then pure (.str v)
     else if lf == "int" then pure (match CC.pyInt v with | some i => .int i | none => .none)
     else if lf == "parse_age" then pure (match Scalar.parseAge v with | some i => .int i | none => .none)
-    else if lf == "parse_set_header" then pure (.strs (if v.isEmpty then [] else parseListHeader v))
+    else if lf == "parse_set_header" then pure (.strs (Http.parseSetHeader v))
     else if lf == "<lambda>" then
       pure (if enumVals.contains (String.ofList v) then .str v else .str dflt.toList)
     else none
@@ -378,7 +391,7 @@ def scalarSet (h : HList) (attr val : String) : Option (HList × String) := do
       let i ← (String.ofList r).toInt?
       if lf == "parse_age" && i < 0 then pure (.error "ValueError") else pure (.ok (CC.intText i))
     | 's' :: r => (pAtom (String.ofList r)).map .ok
-    | 'l' :: r => (pAtoms (String.ofList r)).map fun l => .ok (dumpList l)
+    | 'l' :: r => (pAtoms (String.ofList r)).map fun l => .ok (Http.dumpHeaderList l)
     | _ => none : Option (Except String Str))
   match text with
   | .error e => pure (h, oExc e)
